@@ -1,11 +1,14 @@
 import AiocoapModel.Basic.Bytes
 import AiocoapModel.Oscore.ReplayWindow
+import AiocoapModel.Oscore.Responses
 /-! Line protocol for the replay-window model.
 
 `C12 W <size> <index> <bitfield> <op>*`   ops `v<n>` (is_valid) / `s<n>` (strike_out)
    → one result per op (`1`/`0` for v, `ok`/`err` for s) then `|<index>:<bitfield>`
 `C12 U <size> <win> <echo> <arrival>*`    win `u` | `i:<index>:<bitfield>`; echo `-` | n;
    arrival `<seq>:<0|1>:<echo|->` → outcome letters then `|<win>`
+`C12 M <size> <win> <echo> <msg>*`        mixed traffic: msg `q:<seq>:<0|1>:<echo|->` (request) |
+   `p:<seq|->:<0|1>` (response) → outcome letters then `|<win>`
 -/
 namespace Aiocoap.Oscore
 
@@ -32,6 +35,15 @@ def parseArrival (s : String) : Option Arrival :=
     let a ← (if a = "1" then some true else if a = "0" then some false else none)
     let e ← parseOptNat e
     pure { seq := q, authentic := a, echo := e }
+  | _ => none
+
+def parseMsg (s : String) : Option Msg :=
+  match s.splitOn ":" with
+  | ["q", q, a, e] => (parseArrival s!"{q}:{a}:{e}").map Msg.req
+  | ["p", q, a] => do
+    let q ← parseOptNat q
+    let a ← (if a = "1" then some true else if a = "0" then some false else none)
+    pure (.resp { seq := q, authentic := a })
   | _ => none
 
 def outcomeLetter : Outcome → String
@@ -75,6 +87,16 @@ def handleC12 (args : List String) : String :=
       match parseWin size win, arrivals.mapM parseArrival with
       | some win, some as =>
         let (c, outs) := run { size, win, echoRecovery := echo } as
+        String.join (outs.map outcomeLetter) ++ " |" ++ showWin c.win
+      | _, _ => "bad-op"
+    | _, _ => "bad-op"
+  | "M" :: size :: win :: echo :: msgs =>
+    match size.toNat?, parseOptNat echo with
+    | some size, some echo =>
+      if size = 0 then "out-of-model" else
+      match parseWin size win, msgs.mapM parseMsg with
+      | some win, some ms =>
+        let (c, outs) := runMsgs { size, win, echoRecovery := echo } ms
         String.join (outs.map outcomeLetter) ++ " |" ++ showWin c.win
       | _, _ => "bad-op"
     | _, _ => "bad-op"
